@@ -172,13 +172,15 @@ const TRK_MAGIC: u32 = 0x5452_4B21;
 const TRL_MAGIC: u32 = 0x5452_4C21;
 
 macro_rules! tracked {
-    ($name:ident, $magic:expr, $tag:expr) => {
+    ($name:ident, $magic:expr, $tag:expr, $pad:expr) => {
         pub struct $name {
             magic: u32,
             pub uid: u32,
             pub val: u32,
             pub inst: u32,
             sum: u32,
+            /// inline ballast (Trk: 300 bytes, so that a type WITH drop glue is larger than any "small element" threshold)
+            pad: [u8; $pad],
         }
 
         impl $name {
@@ -186,7 +188,7 @@ macro_rules! tracked {
                 (mix(uid, $tag, val) as u32) ^ inst.rotate_left(7) ^ $magic
             }
             pub fn valid(&self) -> bool {
-                self.magic == $magic && self.sum == Self::checksum(self.uid, self.val, self.inst)
+                self.magic == $magic && self.sum == Self::checksum(self.uid, self.val, self.inst) && self.pad.iter().enumerate().all(|(i, b)| *b == (self.inst as u8) ^ (i as u8))
             }
         }
 
@@ -197,12 +199,17 @@ macro_rules! tracked {
                 }
                 let inst = reg_new_inst();
                 REG.with(|r| r.borrow_mut().creates -= 1); // a clone, not a creation
+                let mut pad = [0u8; $pad];
+                for (i, b) in pad.iter_mut().enumerate() {
+                    *b = (inst as u8) ^ (i as u8);
+                }
                 Self {
                     magic: self.magic,
                     uid: self.uid,
                     val: self.val,
                     inst,
                     sum: if self.valid() { Self::checksum(self.uid, self.val, inst) } else { 0 },
+                    pad,
                 }
             }
         }
@@ -227,7 +234,11 @@ macro_rules! tracked {
             const TAG: u32 = $tag;
             fn make(uid: u32, val: u32) -> Self {
                 let inst = reg_new_inst();
-                Self { magic: $magic, uid, val, inst, sum: Self::checksum(uid, val, inst) }
+                let mut pad = [0u8; $pad];
+                for (i, b) in pad.iter_mut().enumerate() {
+                    *b = (inst as u8) ^ (i as u8);
+                }
+                Self { magic: $magic, uid, val, inst, sum: Self::checksum(uid, val, inst), pad }
             }
             fn digest(&self) -> u64 {
                 if !self.valid() {
@@ -250,10 +261,10 @@ macro_rules! tracked {
     };
 }
 
-tracked!(Key, KEY_MAGIC, 1);
-tracked!(Trk, TRK_MAGIC, 15);
+tracked!(Key, KEY_MAGIC, 1, 0);
+tracked!(Trk, TRK_MAGIC, 15, 300);
 // third tracked type: the LAST column of the 32-column archetype
-tracked!(Trl, TRL_MAGIC, 32);
+tracked!(Trl, TRL_MAGIC, 32, 0);
 
 // ---------------------------------------------------------------------------------------------
 // Zero-sized types. Zed has Drop + a counting Clone; Zno is a plain ZST.
